@@ -102,8 +102,8 @@ def _configs(tier):
     q = tier == 'quick'
     starts = ['0', '3ms', '240ms', '249.5ms', '260ms', '600ms'] if q else list(GRID)
     delays = ['0', '100ms'] if q else ['0', '3ms', '100ms', '250ms']
-    addr_sets = [(128, 128), (200, 200), (10, 10), (253, 253), (128, 129), (246, 246)] if q else \
-        [(128, 128), (200, 200), (246, 246), (10, 10), (127, 127), (248, 248), (253, 253), (128, 129), (127, 128), (200, 10)]
+    addr_sets = [(128, 128), (200, 200), (10, 10), (0, 0), (253, 253), (128, 129), (246, 246)] if q else \
+        [(128, 128), (200, 200), (246, 246), (10, 10), (0, 0), (0, 1), (127, 127), (248, 248), (253, 253), (128, 129), (127, 128), (200, 10)]
     for (a0, a1) in addr_sets:
         for aacs in itertools.product([False, True], repeat=2):
             if any(aacs) and max(a0, a1) >= 246 and (a0 > 246 or a1 > 246 or True) and max(a0, a1) in (253,):
